@@ -46,24 +46,24 @@ Proof.
   destruct q; unfold src_Point_sub_Size; rewrite ?src_Point_sub_size_eq by assumption; reflexivity.
 Qed.
 
-Definition probe_ok (c2x p : point) : Prop :=
+Definition src_probe_ok (c2x p : point) : Prop :=
   i32_min <= px p * 2 - px c2x <= i32_max /\ i32_min <= py p * 2 - py c2x <= i32_max.
 
 Lemma src_eq_contains_eq q p :
-  probe_ok (EllipseQuadrant_center_2x q) p -> src_EllipseQuadrant_contains q p = eq_contains (eq_of q) p.
+  src_probe_ok (EllipseQuadrant_center_2x q) p -> src_EllipseQuadrant_contains q p = eq_contains (eq_of q) p.
 Proof.
   intros [Hx Hy]. unfold src_EllipseQuadrant_contains, eq_contains.
   rewrite ec_contains_eq; [reflexivity| |]; unfold src_Point_sub, src_Point_mul_i32, src_Point_new; cbn [px py]; assumption.
 Qed.
 
 (* the confined radii and the rectangle's extents are values the code may cast to i32 *)
-Definition rr_ok (r : rrect) : Prop :=
+Definition src_rr_ok (r : rrect) : Prop :=
   size_i32 (sz (rr_rect r)) /\
   let c := confine (rr_corners r) (sz (rr_rect r)) in
   radius_ok (r_tl c) /\ radius_ok (r_tr c) /\ radius_ok (r_br c) /\ radius_ok (r_bl c).
 
 Lemma src_corner_quadrant_eq r q :
-  rr_ok r -> eq_of (src_RoundedRectangle_get_confined_corner_quadrant r q) = corner_quadrant r q.
+  src_rr_ok r -> eq_of (src_RoundedRectangle_get_confined_corner_quadrant r q) = corner_quadrant r q.
 Proof.
   intros (Hs & Htl & Htr & Hbr & Hbl). destruct r as [[tl0 s] c]. cbn [rr_rect rr_corners sz] in *.
   unfold src_RoundedRectangle_get_confined_corner_quadrant, corner_quadrant. cbn [rr_rect rr_corners sz tl].
@@ -78,7 +78,7 @@ Proof.
     rewrite src_Point_sub_size_eq, src_Point_add_Size_eq by assumption; reflexivity.
 Qed.
 
-Lemma src_rrc_new_eq r : rr_ok r -> rrc_of (src_RoundedRectangleContains_new r) = rrc_new r.
+Lemma src_rrc_new_eq r : src_rr_ok r -> rrc_of (src_RoundedRectangleContains_new r) = rrc_new r.
 Proof.
   intros H. unfold src_RoundedRectangleContains_new, rrc_new, rrc_of. cbv zeta.
   cbn [RoundedRectangleContains_rows RoundedRectangleContains_columns RoundedRectangleContains_straight_rows_left
@@ -98,10 +98,10 @@ Proof.
 Qed.
 
 Lemma src_rrc_contains_eq c p :
-  probe_ok (EllipseQuadrant_center_2x (RoundedRectangleContains_top_left c)) p ->
-  probe_ok (EllipseQuadrant_center_2x (RoundedRectangleContains_top_right c)) p ->
-  probe_ok (EllipseQuadrant_center_2x (RoundedRectangleContains_bottom_left c)) p ->
-  probe_ok (EllipseQuadrant_center_2x (RoundedRectangleContains_bottom_right c)) p ->
+  src_probe_ok (EllipseQuadrant_center_2x (RoundedRectangleContains_top_left c)) p ->
+  src_probe_ok (EllipseQuadrant_center_2x (RoundedRectangleContains_top_right c)) p ->
+  src_probe_ok (EllipseQuadrant_center_2x (RoundedRectangleContains_bottom_left c)) p ->
+  src_probe_ok (EllipseQuadrant_center_2x (RoundedRectangleContains_bottom_right c)) p ->
   src_RoundedRectangleContains_contains c p = rrc_contains (rrc_of c) p.
 Proof.
   intros H1 H2 H3 H4. unfold src_RoundedRectangleContains_contains, rrc_contains.
